@@ -54,6 +54,7 @@ class Rng:
             OS_.entropy = []
         self.n_unseeded = 0
         self.seed_calls = []
+        self.log = []  # kinds of the variates drawn so far
         self.new_unseeded()
 
     def new_unseeded(self):
@@ -80,6 +81,7 @@ class Rng:
 
     def draw(self, kind):
         ctx = V.get_context()
+        self.log.append(kind)
         if kind == "poisson":
             t = RNG_I(self.seed, z3.IntVal(self.pos))
             ctx.axiom(z3.And(t >= 0, t <= 1))
@@ -872,6 +874,122 @@ def h_repeat_mlmc(ctx, seed, n0):
               replay=(replay_repeat_mlmc, lambda m: {"seed": seed}))
 
 
+class JumpTimeProduct(SimpleProduct):
+    """a payoff whose dates depend on the path: the process simulates at its jump times"""
+
+    def __init__(self, times):
+        super().__init__(times)
+        self.payoff = PAY.Forward(strike=0.0)
+        self.payoff.payoff_dates_type = PAY.PayoffDates.STOCHASTIC
+
+
+def replay_jump_time_variates(sc):
+    """real numpy: two seeded single-process simulations of a path in jump-time mode (intensity 3) give the same jump times"""
+    import numpy as _np
+
+    class M(DirectModel):
+        def intensity(self):
+            return 3.0
+
+        def jump_increment(self, n):
+            return _np.random.normal(size=int(n))
+
+    def run():
+        proc = LP.LevyProcess(M())
+        prod = JumpTimeProduct(_np.array([0.0, 1.0]))
+        cfg = CFG.ConfigurationStandard(mc_paths=1, seed=7, nb_of_processes=1)
+        cfg.initialisation_seed()
+        proc.initialisation(prod)
+        proc.pre_computation(1, prod)
+        return _np.asarray(proc.simulate_one_path().times(), dtype=float)
+
+    a, b = run(), run()
+    same = a.shape == b.shape and bool(_np.array_equal(a, b))
+    return not same, f"jump-time mode, seed 7, single process: the path times of two runs are {a.round(6).tolist()} and {b.round(6).tolist()}"
+
+
+def h_jump_time_variates(ctx):
+    """jump-time mode: every jump time of a simulated path is a variate of the (seeded) stream the engine controls - one logged uniform per
+    jump, nothing drawn from a generator the seed does not reach"""
+    RNG.reset(ctx)
+    OS_.pid = ctx.int("pid", 2)
+    RNG.set_seed(7)
+    proc = LP.LevyProcess(DirectModel())
+    prod = JumpTimeProduct(np.array([0.0, 1.0]))
+    proc.initialisation(prod)
+    proc.pre_computation(1, prod)
+    before = RNG.log.count("uniform")
+    path = proc.simulate_one_path()
+    T = path.times()
+    njumps = len(T) - 2
+    unif = RNG.log.count("uniform") - before
+    symbolic = all(V.is_sym(T[i]) for i in range(1, 1 + njumps))
+    ctx.prove("C08.every_jump_time_is_a_variate_of_the_seeded_stream", unif == njumps and symbolic, info={"jumps": njumps, "uniforms_logged": unif},
+              replay=(replay_jump_time_variates, lambda m: {}))
+
+
+class PredrawCoupling(StreamCoupling):
+    """coupling process in fixed-date mode: pre_computation pre-draws one variate per path, the level-0 paths consume these rows"""
+
+    def __init__(self, reg, normal, uniform):
+        super().__init__(reg)
+        self._normal, self._uniform = normal, uniform
+        self.rows = []
+
+    def __deepcopy__(self, memo):
+        c = copy.copy(self)
+        c.rows = list(self.rows)
+        return c
+
+    def pre_computation(self, mc_paths, product):
+        self.rows = [self._normal() for _ in range(mc_paths)]
+
+    def simulate_one_path(self):
+        x = self.rows.pop(0) if self.rows else self._normal()
+        self.reg.setdefault(self.level, []).append(x)
+        return ScriptedPath(x)
+
+    def simulate_one_path_with_coupling(self):
+        x, u = self._normal(), self._uniform()
+        self.reg.setdefault(self.level, []).append(x)
+        arr = np.empty(2, dtype=object)
+        arr[PT.FP], arr[PT.CP] = x, x * u
+        return ScriptedPath(arr)
+
+
+def _fixed_level_run(seed, n0, normal, uniform):
+    cc = CR.ConvergenceCriteria(criteria=lambda a, ml, r: True, compute_mc_paths=lambda rmse, vl, cl: np.zeros(len(vl)))
+    cfg = CFG.ConfigurationMultiLevel(convergence_rates=CFG.ConvergenceRates(alpha=1.0, beta=1.0, gamma=1.0), convergence_criteria=cc, initial_level=0, maximum_level=1,
+                                      initial_mc_paths=n0, seed=seed, nb_of_processes=1)
+    eng = ME.Engine(cfg, PredrawCoupling(Reg(), normal, uniform))
+    return eng.price_with_constant_mc_paths_and_level(ScriptedProduct(1.0))
+
+
+def replay_repeat_mlmc_fixed(sc):
+    """real numpy generator: the fixed-level variant with pre-drawn level-0 rows, run twice with the same seed from different generator states"""
+    import numpy as _np
+
+    out = []
+    for k in range(2):
+        _np.random.seed(1000 + k)  # whatever the generator did before the run
+        _np.random.normal(size=k + 1)
+        out.append(float(_fixed_level_run(sc["seed"], 2, _np.random.normal, _np.random.uniform).price()))
+    return out[0] != out[1], f"price_with_constant_mc_paths_and_level, seed={sc['seed']}, single process, pre-drawn level-0 rows: first run {out[0]!r}, second run {out[1]!r}"
+
+
+def h_repeat_mlmc_fixed(ctx, seed, n0):
+    """fixed-level variant, fixed-date mode (the level-0 rows are pre-drawn by pre_computation during the initialisation): two runs with
+    the same seed give the same price whatever the generator produced before each run"""
+    RNG.reset(ctx)
+    CLOCK.reads, CLOCK.frozen = [], None
+    OS_.pid = ctx.int("pid", 2)
+    NPR.random.normal()  # the generator has been used before the first run
+    s1 = _fixed_level_run(seed, n0, NPR.random.normal, NPR.random.uniform)
+    s2 = _fixed_level_run(seed, n0, NPR.random.normal, NPR.random.uniform)
+    ctx.prove("C08.seeded_single_process_run_repeats.multilevel_fixed_levels", EQ(s1.price(), s2.price()), info={"seed": seed}, regions={"seed_is_zero": seed == 0},
+              replay=(replay_repeat_mlmc_fixed, lambda m: {"seed": seed}))
+
+
 def h_twin(ctx):
     """sensitivity twin: a generator re-seeded before every path must be caught"""
     RNG.reset(ctx)
@@ -889,11 +1007,13 @@ def harnesses(tier):
     for seed in (7, 0):
         hs.append(Harness(f"repeat.standard.seed{seed}", h_repeat_standard, {"n": 2, "seed": seed}, max_paths=4000, batch=20))
         hs.append(Harness(f"repeat.mlmc.seed{seed}", h_repeat_mlmc, {"seed": seed, "n0": 1}, max_paths=4000, batch=20))
+        hs.append(Harness(f"repeat.mlmc_fixed.seed{seed}", h_repeat_mlmc_fixed, {"seed": seed, "n0": 2}, max_paths=4000, batch=20))
     for nproc in (1, 2):
         for seed in (None, 7):
             hs.append(Harness(f"sharing.standard.p{nproc}.seed{seed}", h_sharing_standard, {"n": 2 if q else 3, "nproc": nproc, "seed": seed}, max_paths=20000, batch=20))
     for seed in (None, 7):
         hs.append(Harness(f"sharing.mlmc.seed{seed}", h_sharing_mlmc, {"seed": seed, "n0": 1, "ns2": [2, 2] if q else [3, 2]}, max_paths=4000, batch=20))
+    hs.append(Harness("jump_time_variates", h_jump_time_variates, max_paths=2000))
     hs.append(Harness("predraw", h_predraw, {"n": 2 if q else 3}, max_paths=2000))
     hs.append(Harness("twin", h_twin, twin="must_fail"))
     return hs
